@@ -621,14 +621,18 @@ def drive_split(branches, bufsize, flow, islist=True, form="tuple"):
     import lena.core
     conv = list if islist else tuple
 
-    def branch(b):
-        objs = tuple(build(s) for s in b)
+    def branch(objs):
         if form == "prebuilt":
             return lena.core.FillComputeSeq(*objs)
         if form == "bare" and len(objs) == 1:
             return objs[0]
         return objs
-    sp, err = _construct(lambda: lena.core.Split(conv(branch(b) for b in branches), bufsize=bufsize))
+
+    def make():
+        # all elements first (as the argument list of one Split(...) expression would), then the branches
+        all_objs = [tuple(build(s) for s in b) for b in branches]
+        return lena.core.Split(conv(branch(o) for o in all_objs), bufsize=bufsize)
+    sp, err = _construct(make)
     if err:
         return err
     return observe(lambda: sp.run(iter(dec(flow))))
@@ -1324,6 +1328,14 @@ def bufsizes_for(n):
     return list(range(1, n + 2)) + [1000, None]
 
 
+def bufsizes_sample(rng, n):
+    """for the sampled chains: 1, n+1 (a buffer longer than the flow), 1000, None and two sizes in between"""
+    bs = {1, n + 1}
+    for _ in range(2):
+        bs.add(rng.randint(1, n + 1))
+    return sorted(bs) + [1000, None]
+
+
 def gen_inner(rng, depth):
     """elements inside a RunIf: stateless run/call elements"""
     out = []
@@ -1589,12 +1601,12 @@ def gen_cases(ctx):
         for b in FILLSEQ_ELS:
             yield {"op": "fillseq_init", "args": [a, b]}
     # ---- sampled ------------------------------------------------------------------------------------
-    n_rand = 2500 if not thorough else 150000
+    n_rand = 2500 if not thorough else 100000
     for _ in range(n_rand):
         in_scope = rng.random() < 0.8
         fl = gen_flow(rng)
-        yield {"op": "chain", "args": gen_chain(rng, in_scope), "flow": fl, "bufsizes": bufsizes_for(len(fl))}
-    n_split = 800 if not thorough else 60000
+        yield {"op": "chain", "args": gen_chain(rng, in_scope), "flow": fl, "bufsizes": bufsizes_sample(rng, len(fl))}
+    n_split = 800 if not thorough else 45000
     for _ in range(n_split):
         c = gen_split_case(rng, rng.random() < 0.9)
         r = rng.random()
@@ -1605,7 +1617,7 @@ def gen_cases(ctx):
         yield c
         if rng.random() < 0.3:
             yield {"op": "splitfc", "branches": c["branches"], "flow": c["flow"]}
-    n_stage = 500 if not thorough else 30000
+    n_stage = 500 if not thorough else 20000
     for _ in range(n_stage):
         yield {"op": "stage", "el": gen_pre_el(rng, rng.random() < 0.9), "flow": gen_flow(rng),
                "term": rng.choice([None, None, "Other:ValueError", "Other:TypeError"])}
